@@ -9,6 +9,9 @@ import (
 // runSpecial: slices that are not replica histories.
 func runSpecial(name string, seed uint64, cases int, out func(cmd, obs J), stats string) bool {
 	switch name {
+	case "par":
+		runParProfile(seed, cases, out, stats)
+		return true
 	case "conc":
 		runConcProfile(seed, cases, out, stats)
 		return true
